@@ -398,7 +398,9 @@ Proof.
   assert (Htabs : ll_tabs (mkD w h comps P pred [Some (ht_of bits vals); None; None; None] [0; 0; 0])
                   = tabs bits vals (Z.to_nat comps)).
   { unfold ll_tabs, tabs. cbn [d_comps d_sels d_tabs]. destruct Hc; subst comps; reflexivity. }
-  rewrite Htabs. unfold tabs at 1. rewrite repeat_length.
+  rewrite Htabs.
+  assert (Hlt : length (tabs bits vals (Z.to_nat comps)) = Z.to_nat comps) by apply repeat_length.
+  rewrite Hlt.
   pose proof (repeat_goodpx P (Z.to_nat comps) ltac:(lia)) as Gd.
   destruct (dec_rows_ok bits vals Hok P (ll_pred pred (2 ^ (P - 1))) recon16
               (fun r c l a al x _ _ _ Hx => diff_reconstruct P x _ HP Hx)
@@ -410,6 +412,7 @@ Proof.
   - apply Forall_forall. intros x Hx. apply repeat_spec in Hx. subst x. exact Gd.
   - exact Gd.
   - exact Hdok.
-  - rewrite <- E3. rewrite <- (app_nil_r (stuff bs)). apply rep_init. exact E2.
+  - change (rep (r_init (stuff bs)) (concat (map (word bits vals) diffs) ++ pad)).
+    rewrite <- E3. rewrite <- (app_nil_r (stuff bs)). apply rep_init. exact E2.
   - rewrite <- Hlen. rewrite Edec. reflexivity.
 Qed.
